@@ -334,7 +334,7 @@ def run_check(prop, tier='quick', seed=0, jobs=None, replay=None):
         for k, v in r.get('exhaustive', {}).items():
             tgt = agg['exhaustive'].setdefault(k, {})
             for kk, vv in v.items():
-                tgt[kk] = tgt.get(kk, 0) + vv if isinstance(vv, (int, float)) else vv
+                tgt[kk] = tgt.get(kk, 0) + vv if isinstance(vv, (int, float)) and not kk.endswith('_cap') else vv
         for k, v in r.get('extra', {}).items():
             agg['extra'].setdefault(k, []).append(v)
         if r.get('status') != 'ok':
